@@ -1000,6 +1000,23 @@ def corruptions(rng, src, n):
     return out
 
 
+CAPABILITY_SOURCES = [
+    ("push-constant", "PUSH_CONSTANT", "var<push_constant> pc: vec4<f32>;\n@fragment fn fs_main() -> @location(0) vec4<f32> { return pc; }\n"),
+    ("push-constant-unused", "PUSH_CONSTANT", "var<push_constant> pc: vec4<f32>;\n@fragment fn fs_main() -> @location(0) vec4<f32> { return vec4<f32>(1.0); }\n"),
+    ("f64", "FLOAT64", "struct S { d: f64, }\n@group(0) @binding(0) var<storage, read> s: S;\n@compute @workgroup_size(1) fn cs() { _ = s.d; }\n"),
+    ("i64", "SHADER_INT64", "@group(0) @binding(0) var<storage, read_write> s: array<i64, 2>;\n@compute @workgroup_size(1) fn cs() { s[0] = 1li; }\n"),
+    ("primitive-index", "PRIMITIVE_INDEX", "@fragment fn fs_main(@builtin(primitive_index) p: u32) -> @location(0) vec4<f32> { return vec4<f32>(f32(p)); }\n"),
+    ("clip-distances", "CLIP_DISTANCE", "struct VOut { @builtin(position) p: vec4<f32>, @builtin(clip_distances) c: array<f32, 1>, }\n@vertex fn vs_main() -> VOut { var o: VOut; return o; }\n"),
+    ("cube-array", "CUBE_ARRAY_TEXTURES", "@group(0) @binding(0) var t: texture_cube_array<f32>;\n@group(0) @binding(1) var s: sampler;\n@fragment fn fs_main() -> @location(0) vec4<f32> { return textureSample(t, s, vec3<f32>(1.0), 0); }\n"),
+    ("storage-format-16bit-norm", "STORAGE_TEXTURE_16BIT_NORM_FORMATS", "@group(0) @binding(0) var t: texture_storage_2d<r16unorm, write>;\n@compute @workgroup_size(1) fn cs() { textureStore(t, vec2<i32>(0), vec4<f32>(1.0)); }\n"),
+    ("multisampled-shading", "MULTISAMPLED_SHADING", "@fragment fn fs_main(@builtin(sample_index) i: u32) -> @location(0) vec4<f32> { return vec4<f32>(f32(i)); }\n"),
+    ("dual-source", "DUAL_SOURCE_BLENDING", "struct FOut { @location(0) a: vec4<f32>, @location(0) @second_blend_source b: vec4<f32>, }\n@fragment fn fs_main() -> FOut { var o: FOut; return o; }\n"),
+    ("subgroup", "SUBGROUP", "@compute @workgroup_size(1) fn cs(@builtin(subgroup_size) n: u32) { _ = n; }\n"),
+    ("early-depth", "EARLY_DEPTH_TEST", "@fragment @early_depth_test fn fs_main() -> @location(0) vec4<f32> { return vec4<f32>(1.0); }\n"),
+    ("atomic-64", "SHADER_INT64_ATOMIC_ALL_OPS", "@group(0) @binding(0) var<storage, read_write> a: atomic<u64>;\n@compute @workgroup_size(1) fn cs() { atomicAdd(&a, 1lu); }\n"),
+]
+
+
 def c17_cases(rng, seeds, n_per_seed, validate_sets=("none", "all")):
     """seeds: list of (name, valid WGSL text)"""
     cases = []
@@ -1019,6 +1036,12 @@ def c17_cases(rng, seeds, n_per_seed, validate_sets=("none", "all")):
     for name, src in VALID_ODD:
         for val in ("none", "all", "nof64", "empty"):
             cases.append({"id": "c17-%06d" % k, "family": "valid-odd-" + name, "wgsl": src, "opts": opts(validate=val)})
+            k += 1
+    # sources that need one capability each, validated with that capability present, alone, missing, and with none at all:
+    # the generator must reject exactly when the caller's validator does
+    for name, cap, src in CAPABILITY_SOURCES:
+        for val in ("none", "all", "empty", "all-" + cap, "only-" + cap):
+            cases.append({"id": "c17-%06d" % k, "family": "capability-" + name, "wgsl": src, "opts": opts(validate=val)})
             k += 1
     for name, src in INVALID_BUT_PARSABLE:
         for val in ("none", "all", "nof64", "empty"):
